@@ -442,7 +442,11 @@ func getFromObjStm(r Getter, number uint32, sRef Reference, getInt getIntFn, enc
 				end = o
 			}
 		}
-		if ref, ok := objStmMemberReference(contents.s, a, end); ok {
+		ref, ok, err := objStmMemberReference(contents.s, a, end)
+		if err != nil {
+			return nil, err
+		}
+		if ok {
 			return ref, nil
 		}
 	}
@@ -452,35 +456,55 @@ func getFromObjStm(r Getter, number uint32, sRef Reference, getInt getIntFn, enc
 
 // objStmMemberReference checks whether the integer a, which has just been
 // read from s, is followed by a generation number and the keyword R before
-// the offset end (if end is not negative).
-func objStmMemberReference(s *scanner, a Integer, end int64) (Reference, bool) {
+// the offset end (if end is not negative).  Failures of the byte source are
+// returned; anything else which keeps the tokens from being read means that
+// the member is not a reference.
+func objStmMemberReference(s *scanner, a Integer, end int64) (Reference, bool, error) {
+	sourceFailed := func(err error) bool {
+		return err != io.EOF && !errors.Is(err, io.ErrUnexpectedEOF) && IsReadError(err)
+	}
 	if a < 0 || a >= maxXRefSize {
-		return 0, false
+		return 0, false, nil
 	}
 	if err := s.SkipWhiteSpace(); err != nil {
-		return 0, false
+		if sourceFailed(err) {
+			return 0, false, err
+		}
+		return 0, false, nil
 	}
 	if end >= 0 && s.CurrentPos() >= end {
-		return 0, false
+		return 0, false, nil
 	}
-	buf, _ := s.PeekN(1)
+	buf, err := s.PeekN(1)
+	if len(buf) == 0 && sourceFailed(err) {
+		return 0, false, err
+	}
 	if len(buf) == 0 || buf[0] < '0' || buf[0] > '9' {
-		return 0, false
+		return 0, false, nil
 	}
 	b, err := s.ReadInteger()
+	if sourceFailed(err) {
+		return 0, false, err
+	}
 	if err != nil || b < 0 || b > maxGeneration {
-		return 0, false
+		return 0, false, nil
 	}
 	if err := s.SkipWhiteSpace(); err != nil {
-		return 0, false
+		if sourceFailed(err) {
+			return 0, false, err
+		}
+		return 0, false, nil
 	}
 	if end >= 0 && s.CurrentPos() >= end {
-		return 0, false
+		return 0, false, nil
 	}
 	if err := s.SkipString("R"); err != nil {
-		return 0, false
+		if sourceFailed(err) {
+			return 0, false, err
+		}
+		return 0, false, nil
 	}
-	return NewReference(uint32(a), uint16(b)), true
+	return NewReference(uint32(a), uint16(b)), true, nil
 }
 
 func (r *Reader) getID(obj Object) ([][]byte, error) {
